@@ -548,3 +548,28 @@ Proof.
     - apply Hm'. eapply conn_edges_sub; [exact H12 | exact Hc]. }
   subst r'. exists r. auto.
 Qed.
+
+(* ============================================================================================ *)
+(* 7. all modelled sources of order at once                                                       *)
+Lemma modelled_order_sources_irrelevant :
+  forall (h : list N -> Z -> N) (V C : Type)
+         (reads reads' : list read)
+         (f : nat -> V) (n : nat) (collected collected' : list (nat * V))
+         (us us' : list (nat * (C -> C))) (r : vrecord C)
+         (d d' : list (nat * V)),
+  NoDup (map name_source reads) -> Permutation reads reads' ->
+  Permutation (results_sequential f n) collected -> Permutation (results_sequential f n) collected' ->
+  NoDup (map fst us) -> Permutation us us' ->
+  NoDup (map fst d) -> Permutation d d' ->
+  sort_reads h reads = sort_reads h reads' /\
+  sort_by_key collected = sort_by_key collected' /\
+  (forall s, apply_updates us r s = apply_updates us' r s) /\
+  sort_by_key d = sort_by_key d'.
+Proof.
+  intros h V C reads reads' f n collected collected' us us' r d d' N1 P1 P2 P2' N3 P3 N4 P4.
+  split; [apply sort_perm_invariant; assumption|].
+  split; [rewrite (resort_equals_sequential V f n collected P2),
+                  (resort_equals_sequential V f n collected' P2'); reflexivity|].
+  split; [apply sample_updates_commute; assumption|].
+  apply sorted_items_order_irrelevant; assumption.
+Qed.
